@@ -144,14 +144,14 @@ func (pkg EEDPackage) WriteTo(ch BytesChannel) error {
 	// 4 msgnumber
 	// 1 state
 	// 1 class
-	// x sqlstate
+	// 1 + x sqlstate
 	// 1 status
 	// 2 transtate
-	// x msg
-	// x servername
-	// x procname
+	// 2 + x msg
+	// 1 + x servername
+	// 1 + x procname
 	// 2 linenr
-	length := 11 + len(pkg.SQLState) + len(pkg.Msg) + len(pkg.ServerName) + len(pkg.ProcName)
+	length := 16 + len(pkg.SQLState) + len(pkg.Msg) + len(pkg.ServerName) + len(pkg.ProcName)
 
 	if err := ch.WriteUint16(uint16(length)); err != nil {
 		return fmt.Errorf("failed to write length: %w", err)
